@@ -106,3 +106,30 @@ Proof.
   let r := eval vm_compute in (run_commute flags_fixed p_plain g_plain_swapped 2 true) in
   match r with Ok (_, ?m) => exists m end. vm_compute; reflexivity.
 Qed.
+
+(* completeness does not extend to OrValue: the committed choice *)
+Lemma or_committed_choice_witness :
+  topo p_choice = true /\ output_nodes p_choice = [3] /\
+  instanceb g_choice p_choice [2] s_choice = true /\
+  run flags_fixed p_choice g_choice 2 false = Fail /\ run flags_as_pinned p_choice g_choice 2 false = Fail.
+Proof. repeat split; vm_compute; reflexivity. Qed.
+
+Lemma p_two_roots_reachable : outs_reachable_multi p_two_roots.
+Proof.
+  intros pv [E|[E|[]]]; subst.
+  - exists 0, 0, 0, (un "Relu" (PVar "x" false)). split; [vm_compute; auto|]. repeat split; try constructor.
+  - exists 1, 1, 0, (un "Neg" (PVar "x" false)). split; [vm_compute; auto|]. repeat split; try constructor.
+Qed.
+
+Example multi_example :
+  or_free p_two_roots = true /\ topo p_two_roots = true /\ outs_reachable_multi p_two_roots /\
+  candidates p_two_roots g_two_roots 0 = [[0; 1]; [0; 2]] /\
+  instanceb g_two_roots p_two_roots [0; 2] s_two_roots = true /\
+  (forall c, In c (candidates p_two_roots g_two_roots 0) -> try_candidate flags_fixed g_two_roots p_two_roots false c <> Err) /\
+  exists m, run flags_fixed p_two_roots g_two_roots 0 false = Ok m /\ m_nodes m = [0; 2].
+Proof.
+  split; [reflexivity|]. split; [reflexivity|]. split; [apply p_two_roots_reachable|].
+  split; [reflexivity|]. split; [vm_compute; reflexivity|]. split.
+  - intros c [E|[E|[]]]; subst; vm_compute; discriminate.
+  - exists_result (run flags_fixed p_two_roots g_two_roots 0 false). split; vm_compute; reflexivity.
+Qed.
